@@ -195,6 +195,11 @@ type Spelling struct {
 	TrailComma   bool
 	NoteOnlyForm bool // when a node has a note and no rules: "// note"
 	Compact      bool // render without line breaks where no annotation is present
+	// Blank, when not "", replaces the single space the renderer writes in front
+	// of an annotation or comment, and is ALSO written between a value and the
+	// comma behind it and at the end of a line that has no annotation
+	// (alignment with tabs, trailing blanks).
+	Blank string
 }
 
 var Canonical = Spelling{EOL: "\n", Indent: "  "}
@@ -238,9 +243,9 @@ func (r *renderer) indent(d int) string { return strings.Repeat(r.sp.Indent, d) 
 func (r *renderer) annotation(n *Node) string {
 	if len(n.Rules) == 0 && n.Note == "" {
 		if r.sp.Comments == 1 {
-			return " # c"
+			return r.blank() + "# c"
 		}
-		return ""
+		return r.sp.Blank // trailing blank at the end of the line
 	}
 	var body string
 	if len(n.Rules) > 0 {
@@ -254,18 +259,34 @@ func (r *renderer) annotation(n *Node) string {
 	var s string
 	switch r.sp.MultiLine {
 	case 0:
-		s = " // " + body
+		s = r.blank() + "// " + body
 	case 1:
-		s = " /* " + body + " */"
+		s = r.blank() + "/* " + body + " */"
 	default:
-		s = " /*" + r.sp.EOL + body + r.sp.EOL + "*/"
+		s = r.blank() + "/*" + r.sp.EOL + body + r.sp.EOL + "*/"
 	}
 	if r.sp.Comments == 1 {
 		// a user comment may follow an annotation of either form (after an inline
 		// one it ends the rule object / the note text)
-		s += " # c"
+		s += r.blank() + "# c"
 	}
 	return s
+}
+
+// blank is the separator in front of an annotation or comment.
+func (r *renderer) blank() string {
+	if r.sp.Blank != "" {
+		return r.sp.Blank
+	}
+	return " "
+}
+
+// comma is the tail behind a value (with the alignment blank in front of it).
+func (r *renderer) comma(tail string) string {
+	if tail == "" {
+		return ""
+	}
+	return r.sp.Blank + tail
 }
 
 func keyText(p Prop) string {
@@ -282,7 +303,7 @@ func (r *renderer) value(n *Node, depth int, tail string) {
 	switch n.Kind {
 	case KObj:
 		if len(n.Props) == 0 {
-			r.b.WriteString("{}" + tail + r.annotation(n))
+			r.b.WriteString("{}" + r.comma(tail) + r.annotation(n))
 			return
 		}
 		r.b.WriteString("{" + r.annotation(n) + r.sp.EOL)
@@ -300,7 +321,7 @@ func (r *renderer) value(n *Node, depth int, tail string) {
 		r.b.WriteString(r.indent(depth) + "}" + tail)
 	case KArr:
 		if len(n.Items) == 0 {
-			r.b.WriteString("[]" + tail + r.annotation(n))
+			r.b.WriteString("[]" + r.comma(tail) + r.annotation(n))
 			return
 		}
 		r.b.WriteString("[" + r.annotation(n) + r.sp.EOL)
@@ -315,7 +336,7 @@ func (r *renderer) value(n *Node, depth int, tail string) {
 		}
 		r.b.WriteString(r.indent(depth) + "]" + tail)
 	default:
-		r.b.WriteString(n.Lit + tail + r.annotation(n))
+		r.b.WriteString(n.Lit + r.comma(tail) + r.annotation(n))
 	}
 }
 
